@@ -160,6 +160,11 @@ struct World {
 	outs_described: usize,
 	/// outputs created by transactions that were evicted (attribution of the known eviction defect)
 	evicted_outs: BTreeSet<usize>,
+	/// inputs of evicted transactions (a remaining tx may re-create such a commitment)
+	evicted_ins: BTreeSet<usize>,
+	/// transactions first admitted below the minimum fee while the txpool was over capacity
+	lowfee_known: BTreeSet<String>,
+	over_capacity_before: bool,
 	/// head height went down in a reorg since the pool was last empty (attribution)
 	height_decreased: bool,
 	last_probe: String,
@@ -220,6 +225,9 @@ impl World {
 			kers: HashMap::new(),
 			outs_described: 0,
 			evicted_outs: BTreeSet::new(),
+			evicted_ins: BTreeSet::new(),
+			lowfee_known: BTreeSet::new(),
+			over_capacity_before: false,
 			height_decreased: false,
 			last_probe: String::new(),
 			stats: BTreeMap::new(),
@@ -423,9 +431,22 @@ impl World {
 					orphans.iter().map(|(n, o)| format!("{} spends o{}", sigs[*n], o)).collect::<Vec<_>>()
 				);
 				let by_evict = !orphans.is_empty() && orphans.iter().all(|(_, o)| self.evicted_outs.contains(o));
+				// a remaining transaction re-creates a commitment whose spender was evicted
+				let unspent_now: BTreeSet<usize> = self.node_utxo().iter().map(|x| x.0).collect();
+				let recreated: Vec<usize> = txs
+					.iter()
+					.flat_map(|t| self.tx_outs(t))
+					.filter(|o| unspent_now.contains(o) && self.evicted_ins.contains(o))
+					.collect();
 				if by_evict {
 					out.raw(&format!("#KNOWN-PROBE C14 evict-leaves-orphaned-child: {}", desc));
 					self.stat("finding:evict-leaves-orphaned-child");
+				} else if orphans.is_empty() && !recreated.is_empty() && e.contains("DuplicateCommitment") {
+					out.raw(&format!(
+						"#KNOWN-PROBE C14 evict-leaves-duplicate-commitment: {}; the evicted transaction spent {:?}, which a remaining transaction re-creates",
+						desc, recreated
+					));
+					self.stat("finding:evict-leaves-duplicate-commitment");
 				} else {
 					out.raw(&format!("#ORACLE-FAIL C14 pool-not-jointly-valid {}", desc));
 				}
@@ -499,7 +520,9 @@ impl World {
 					listing,
 					e
 				);
-				if self.height_decreased && (e.contains("KernelLockHeight") || e.contains("ImmatureCoinbase")) {
+				if self.height_decreased
+					&& (e.contains("KernelLockHeight") || e.contains("ImmatureCoinbase") || e.contains("NRDKernelPreHF3"))
+				{
 					out.raw(&format!("#KNOWN-PROBE C14 reorg-to-lower-height-keeps-immature-tx: {}", desc));
 					self.stat("finding:reorg-to-lower-height-keeps-immature-tx");
 				} else {
@@ -526,8 +549,48 @@ impl World {
 		s
 	}
 
+	/// admission oracle (property): no entry of the txpool / stempool / reorg cache pays less than
+	/// the minimum fee for its weight or exceeds the weight limit
+	fn admission_oracle(&mut self, out: &mut Out, ctx: &str) {
+		let cache: Vec<PoolEntry> = self.pool.reorg_cache.read().iter().cloned().collect();
+		let public: Vec<PoolEntry> =
+			self.pool.txpool.entries.iter().chain(self.pool.stempool.entries.iter()).cloned().collect();
+		for (place, e) in public.iter().map(|e| ("pool", e)).chain(cache.iter().map(|e| ("reorg cache", e))) {
+			let bad_fee = e.tx.shifted_fee() < e.tx.weight() * FEE_BASE;
+			let heavy = e.tx.weight() > global::max_tx_weight();
+			if !(bad_fee || heavy) {
+				continue;
+			}
+			let sig = self.tx_sig(&e.tx);
+			let desc = format!(
+				"hist={} after [{}]: {} holds {} with fee {} (shifted {}) weight {} (minimum fee {}, max weight {})",
+				self.name,
+				ctx,
+				place,
+				sig,
+				e.tx.fee(),
+				e.tx.shifted_fee(),
+				e.tx.weight(),
+				e.tx.weight() * FEE_BASE,
+				global::max_tx_weight()
+			);
+			if bad_fee && !heavy && self.lowfee_known.contains(&sig) {
+				if place == "pool" {
+					out.raw(&format!("#KNOWN-PROBE C14 low-fee-admitted-when-over-capacity: (still held / replayed from the reorg cache) {}", desc));
+				}
+			} else if bad_fee && !heavy && self.over_capacity_before {
+				self.lowfee_known.insert(sig);
+				out.raw(&format!("#KNOWN-PROBE C14 low-fee-admitted-when-over-capacity: {}", desc));
+				self.stat("finding:low-fee-admitted-when-over-capacity");
+			} else {
+				out.raw(&format!("#ORACLE-FAIL C14 inadmissible-tx-admitted {}", desc));
+			}
+		}
+	}
+
 	/// pool content + oracle verdicts after an op
 	fn obs(&mut self, out: &mut Out, ctx: &str) {
+		self.admission_oracle(out, ctx);
 		let tx_entries: Vec<PoolEntry> = self.pool.txpool.entries.clone();
 		let stem_entries: Vec<PoolEntry> = self.pool.stempool.entries.clone();
 		let cache: Vec<PoolEntry> = self.pool.reorg_cache.read().iter().cloned().collect();
@@ -569,6 +632,7 @@ impl World {
 		}
 		if txs.is_empty() && stem_entries.is_empty() {
 			self.evicted_outs.clear();
+			self.evicted_ins.clear();
 			self.height_decreased = false;
 		}
 		out.line(
@@ -619,36 +683,13 @@ impl World {
 				for o in self.tx_outs(g) {
 					self.evicted_outs.insert(o);
 				}
-			}
-		}
-		// admission oracle (property): fee below the minimum, over weight, standalone invalid => not admitted
-		if res == "ok" {
-			let entries: Vec<PoolEntry> =
-				self.pool.txpool.entries.iter().chain(self.pool.stempool.entries.iter()).cloned().collect();
-			for e in entries {
-				let bad_fee = e.tx.shifted_fee() < e.tx.weight() * FEE_BASE;
-				let heavy = e.tx.weight() > global::max_tx_weight();
-				if bad_fee || heavy {
-					let sig = self.tx_sig(&e.tx);
-					let desc = format!(
-						"hist={} {}: pool holds {} with fee {} (shifted {}) weight {} (minimum fee {}, max weight {})",
-						self.name,
-						lhs,
-						sig,
-						e.tx.fee(),
-						e.tx.shifted_fee(),
-						e.tx.weight(),
-						e.tx.weight() * FEE_BASE,
-						global::max_tx_weight()
-					);
-					if bad_fee && !heavy && before.len() > self.cfg.max_pool && !stem {
-						out.raw(&format!("#KNOWN-PROBE C14 low-fee-admitted-when-over-capacity: {}", desc));
-						self.stat("finding:low-fee-admitted-when-over-capacity");
-					} else {
-						out.raw(&format!("#ORACLE-FAIL C14 inadmissible-tx-admitted {}", desc));
-					}
+				for i in self.tx_ins(g) {
+					self.evicted_ins.insert(i);
 				}
 			}
+		}
+		self.over_capacity_before = before.len() > self.cfg.max_pool;
+		if res == "ok" {
 			if !self.txs[t].tags.is_empty() {
 				out.raw(&format!(
 					"#ORACLE-FAIL C14 invalid-tx-admitted hist={} {} tags={:?}",
@@ -657,6 +698,7 @@ impl World {
 			}
 		}
 		self.obs(out, &lhs);
+		self.over_capacity_before = false;
 		res
 	}
 
@@ -753,6 +795,9 @@ impl World {
 			if !after.contains(b) {
 				for o in self.tx_outs(b) {
 					self.evicted_outs.insert(o);
+				}
+				for i in self.tx_ins(b) {
+					self.evicted_ins.insert(i);
 				}
 			}
 		}
@@ -892,7 +937,32 @@ fn random_submission(w: &mut World, out: &mut Out, rng: &mut Rng) -> bool {
 	let src = pick_src(rng);
 	let nh = w.next_height();
 	let kind = rng.below(100);
-	let (tx, tags, label): (Option<Transaction>, Vec<String>, &str) = if kind < 22 {
+	let (tx, tags, label): (Option<Transaction>, Vec<String>, &str) = if kind < 5 {
+		// re-creates an existing commitment (same key, same value): one that is unspent at the
+		// head, one that a pool transaction creates, or one that a pool transaction spends
+		if free.is_empty() {
+			return false;
+		}
+		let unspent_plain: Vec<usize> = w.node_utxo().iter().filter(|x| !x.2).map(|x| x.0).collect();
+		let spent_by_pool: Vec<usize> = w.pool_spent().into_iter().filter(|o| unspent_plain.contains(o)).collect();
+		let (target, label) = match rng.below(3) {
+			0 if !unspent_plain.is_empty() => (*rng.pick(&unspent_plain), "recreates-unspent-commitment"),
+			1 if !pool_outs.is_empty() => (rng.pick(&pool_outs).0, "recreates-pool-created-commitment"),
+			_ if !spent_by_pool.is_empty() => (*rng.pick(&spent_by_pool), "recreates-commitment-the-pool-spends"),
+			_ => return false,
+		};
+		let tv = w.kit.outs[target].value;
+		let fee = World::good_fee(rng, World::weight_of(1, 2));
+		let src_out = free.iter().cloned().find(|o| *o != target && w.kit.outs[*o].value > tv + fee + 1);
+		match src_out {
+			Some(o) => {
+				let v = w.kit.outs[o].value;
+				let spec = TxSpec { inputs: vec![o], outputs: vec![(tv, Some(target)), (v - tv - fee, None)], kernel: KSpec::Plain(fee) };
+				(w.kit.build_tx(&spec).ok(), vec![], label)
+			}
+			None => return false,
+		}
+	} else if kind < 22 {
 		// plain valid spend of unspent output(s)
 		if free.is_empty() {
 			return false;
